@@ -123,10 +123,10 @@ def itemSafe (st : St) (t : Tok) (unknownContinues : Bool) (id : Nat) : Bool :=
     panics -/
 def safe (st : St) (t : Tok) : Req → Bool
   | .findServers => !st.endpointsEmpty
-  | .createSession _ sec cert => !(sec && cert == .nonRsa)
+  | .createSession _ sec cert => !(sec && cert == .nonRsa && !Gen.SrvSession.newSessionSignatureChecked)
   | .activateSession sec _ =>
     match findSession st t with
-    | some s => !(sec && !s.certRsa)
+    | some s => !(sec && !s.certRsa && !Gen.SrvSession.verifySessionSignatureChecked)
     | none => true
   | .browse cls refs => cls == .plain && !(refs && st.dataTypeAttr == .wrongType)
   | .createSubscription iv =>
